@@ -25,11 +25,12 @@ entity User in [Group] {
   d: decimal, od?: decimal, ip: ipaddr, oip?: ipaddr, dt: datetime, odt?: datetime, du: duration, odu?: duration,
   labels: Set<String>, onums?: Set<Long>,
   manager?: User, home: Group,
-  addr: { city: String, zip?: Long }, oaddr?: { city: String, zip?: Long }
+  addr: { city: String, zip?: Long }, oaddr?: { city: String, zip?: Long },
+  "__tag:k"?: Long
 } tags Long;
 entity Doc in [Folder] { owner: User, size: Long, label?: String, name?: String } tags String;
 entity Folder in [Folder];
-action view, edit in [readWrite] appliesTo { principal: [User, Group], resource: [Doc, Folder], context: { ok: Bool, n?: Long, who?: User, rec: { a: Long, b?: String } } };
+action view, edit in [readWrite] appliesTo { principal: [User, Group], resource: [Doc, Folder], context: { ok: Bool, n?: Long, who?: User, rec: { a: Long, b?: String }, "a.b": { c?: Long }, a: { b: { c?: Long } } } };
 action readWrite;
 action admin appliesTo { principal: User, resource: Doc, context: {} };
 `
@@ -104,6 +105,9 @@ func userAttrs(variant int) types.RecordMap {
 			m[types.String(n)] = opt[n]
 		}
 	}
+	if variant == 1 || variant == 2 {
+		m["__tag:k"] = types.Long(1)
+	}
 	if variant == 1 || variant == 3 {
 		m["addr"] = types.NewRecord(types.RecordMap{"city": types.String("x"), "zip": types.Long(7)})
 	}
@@ -124,10 +128,10 @@ func buildEnvs() {
 		{uid("User", "u1"), uid("Action", "admin"), uid("Doc", "d1"), 1},
 	}
 	ctxs := []types.Record{
-		types.NewRecord(types.RecordMap{"ok": types.True, "rec": types.NewRecord(types.RecordMap{"a": types.Long(1)})}),
-		types.NewRecord(types.RecordMap{"ok": types.False, "n": types.Long(gen.MaxI), "who": uid("User", "u2"), "rec": types.NewRecord(types.RecordMap{"a": types.Long(-1), "b": types.String("s")})}),
-		types.NewRecord(types.RecordMap{"ok": types.True, "n": types.Long(0), "rec": types.NewRecord(types.RecordMap{"a": types.Long(0)})}),
-		types.NewRecord(types.RecordMap{"ok": types.True, "who": uid("User", "ghost"), "rec": types.NewRecord(types.RecordMap{"a": types.Long(2), "b": types.String("")})}),
+		types.NewRecord(types.RecordMap{"ok": types.True, "rec": types.NewRecord(types.RecordMap{"a": types.Long(1)}), "a.b": types.NewRecord(types.RecordMap{"c": types.Long(1)}), "a": types.NewRecord(types.RecordMap{"b": types.NewRecord(types.RecordMap{})})}),
+		types.NewRecord(types.RecordMap{"ok": types.False, "n": types.Long(gen.MaxI), "who": uid("User", "u2"), "rec": types.NewRecord(types.RecordMap{"a": types.Long(-1), "b": types.String("s")}), "a.b": types.NewRecord(types.RecordMap{}), "a": types.NewRecord(types.RecordMap{"b": types.NewRecord(types.RecordMap{"c": types.Long(2)})})}),
+		types.NewRecord(types.RecordMap{"ok": types.True, "n": types.Long(0), "rec": types.NewRecord(types.RecordMap{"a": types.Long(0)}), "a.b": types.NewRecord(types.RecordMap{"c": types.Long(1)}), "a": types.NewRecord(types.RecordMap{"b": types.NewRecord(types.RecordMap{})})}),
+		types.NewRecord(types.RecordMap{"ok": types.True, "who": uid("User", "ghost"), "rec": types.NewRecord(types.RecordMap{"a": types.Long(2), "b": types.String("")}), "a.b": types.NewRecord(types.RecordMap{}), "a": types.NewRecord(types.RecordMap{"b": types.NewRecord(types.RecordMap{})})}),
 	}
 	for ri, rq := range reqs {
 		for uv := 0; uv < 6; uv++ {
@@ -749,6 +753,94 @@ func actionInGuards() *core.Family {
 	}
 }
 
+// entity-in folding: `e in R` is typed False when no entity type of R can be an ancestor
+// type of e (and the branch behind a False guard is not checked). For a right side that is
+// a union of entity types EVERY member type has to be unrelated, whatever their order.
+func entityInGuards() *core.Family {
+	ent := func(t, id string) *Expr { return L(Entity(t, id)) }
+	ok := path("context", "ok")
+	lits := []*Expr{ent("User", "u2"), ent("Group", "g1"), ent("Group", "g2"), ent("Doc", "d1"), ent("Folder", "f1")}
+	var rhs []*Expr
+	for _, a := range lits {
+		rhs = append(rhs, a, SetLit(a))
+		for _, b := range lits {
+			rhs = append(rhs, SetLit(a, b), If(ok, a, b))
+			for _, c := range lits[1:4] {
+				rhs = append(rhs, SetLit(a, b, c))
+			}
+		}
+	}
+	lhs := []*Expr{Var("principal"), Var("resource"), path("context", "who"), path("resource", "owner"), path("principal", "home")}
+	uses := []*Expr{
+		Bin(OEq, path("principal", "nick"), L(Str("s"))),
+		Bin(OLt, path("principal", "name"), L(Long(1))),
+		Bin(OEq, path("resource", "missing"), L(Long(1))),
+	}
+	type form struct {
+		name string
+		f    func(a, u *Expr) *Expr
+	}
+	forms := []form{
+		{"A&&U", func(a, u *Expr) *Expr { return Bin(OAnd, a, u) }},
+		{"!A||U", func(a, u *Expr) *Expr { return Bin(OOr, Un(ONot, a), u) }},
+		{"if-A-U-true", func(a, u *Expr) *Expr { return If(a, u, L(Bool(true))) }},
+		{"A||U", func(a, u *Expr) *Expr { return Bin(OOr, a, u) }},
+	}
+	n := len(lhs) * len(rhs) * len(uses) * len(forms)
+	return &core.Family{
+		Name: "entity-in-guards",
+		Desc: fmt.Sprintf("`e in R` as a guard in %d short-circuit forms in front of %d unsafe uses, for %d entity-typed left sides and %d right sides R (an entity, sets of 1..3 entities and if-then-else over entities of 4 types in every order: single types and unions, related and unrelated to e)", len(forms), len(uses), len(lhs), len(rhs)),
+		N:    int64(n),
+		Run: func(t *core.T, i int64) {
+			x := int(i)
+			f := forms[x%len(forms)]
+			x /= len(forms)
+			u := uses[x%len(uses)]
+			x /= len(uses)
+			r := rhs[x%len(rhs)]
+			l := lhs[x/len(rhs)]
+			e := f.f(Bin(OIn, l, r), u)
+			if checkCond(t, "entity-in:"+f.name, e, []bool{true}) {
+				t.Nontrivial()
+			}
+			t.SampleF(e.String)
+		},
+	}
+}
+
+// capabilities are keyed by (access path, attribute): two DIFFERENT paths or attributes
+// must never share a key, whatever characters the attribute names contain.
+func capabilityKeys() *core.Family {
+	ab := Access(Var("context"), "a.b")             // context["a.b"]
+	a_b := Access(Access(Var("context"), "a"), "b") // context.a.b
+	type cse struct {
+		name string
+		e    *Expr
+	}
+	use := func(x *Expr) *Expr { return Bin(OEq, Access(x, "c"), L(Long(1))) }
+	cases := []cse{
+		{"has on context[\"a.b\"], use of context.a.b", Bin(OAnd, Has(ab, "c"), use(a_b))},
+		{"has on context.a.b, use of context[\"a.b\"]", Bin(OAnd, Has(a_b, "c"), use(ab))},
+		{"same path (sound)", Bin(OAnd, Has(ab, "c"), use(ab))},
+		{"same path (sound) 2", Bin(OAnd, Has(a_b, "c"), use(a_b))},
+		{"has \"__tag:k\" then getTag(k)", Bin(OAnd, Has(Var("principal"), "__tag:k"), Bin(OEq, Bin(OGetTag, Var("principal"), L(Str("k"))), L(Long(1))))},
+		{"hasTag(k) then .\"__tag:k\"", Bin(OAnd, Bin(OHasTag, Var("principal"), L(Str("k"))), Bin(OEq, Access(Var("principal"), "__tag:k"), L(Long(1))))},
+		{"if-form: has on context[\"a.b\"], use of context.a.b", If(Has(ab, "c"), use(a_b), L(Bool(true)))},
+	}
+	return &core.Family{
+		Name: "capability-key-collisions",
+		Desc: fmt.Sprintf("%d guard / use pairs whose access paths or attribute names differ but could be confused by a textual capability key: context[\"a.b\"] vs context.a.b, an attribute literally named __tag:k vs the tag k", len(cases)),
+		N:    int64(len(cases)),
+		Run: func(t *core.T, i int64) {
+			c := cases[i]
+			if checkCond(t, "capability-key:"+c.name, c.e, []bool{true}) {
+				t.Nontrivial()
+			}
+			t.Sample(c.name + ": " + c.e.String())
+		},
+	}
+}
+
 // tag guards
 func tagGuards() *core.Family {
 	ents := []*Expr{Var("principal"), Var("resource"), path("resource", "owner"), path("principal", "manager"), L(Entity("User", "u2"))}
@@ -817,7 +909,7 @@ func Check() *core.Check {
 				return []*core.Family{{Name: "setup", Desc: "schema resolves", N: 1, Run: func(t *core.T, i int64) { t.Fail("harness-schema", schemaText, "resolves", e.Error()) }}}
 			}
 			sp := specs()
-			fams := []*core.Family{guards(tier), clauseGuards(), tagGuards(), unions(), actionInGuards(), depth1("depth1-unary", sp, leaves(), 1)}
+			fams := []*core.Family{guards(tier), clauseGuards(), tagGuards(), unions(), actionInGuards(), entityInGuards(), capabilityKeys(), depth1("depth1-unary", sp, leaves(), 1)}
 			if tier == "thorough" {
 				fams = append(fams, depth1("depth1-binary", sp, leaves(), 2), depth1("depth1-if", gen.Ternary, leavesSmall(), 3))
 			} else {
